@@ -80,6 +80,7 @@ ThrottleWindowInv == P!ThrottleWindow(cfg, Obs)
 ThrottlePacedInv == P!ThrottlePaced(cfg, Obs)
 Settle1Inv == P!Settle1(cfg, Obs)
 Settle2Inv == P!Settle2(cfg, Obs)
+NoEarlyCloseInv == P!NoEarlyClose(cfg, Obs)
 \* the bound of the statement is tight in the model: one less is violated (checked separately as a vacuity guard)
 TighterWindow == LET t == obs.gotAt IN \A j \in 1..Len(t) : Cardinality({i \in 1..Len(t) : t[j] <= t[i] /\ t[i] < t[j] + cfg.interval}) <= P!Bound(cfg) - 1
 ====
